@@ -22,6 +22,9 @@ MODEL_ASSUMPTIONS = [
     'iteration over set/dict visits every element exactly once in an arbitrary order; '
     'iteration over a sanitized JSON dict visits items in key order (the loops concerned carry no '
     'state between iterations besides early exit)',
+    'sanitized JSON dicts are finite maps in canonical key order: the insertion order of the keys of '
+    'a dict argument / return value is abstracted away (order-preservation through the cache file is '
+    'checked by the bounded stand-in cache_forest only)',
     'no MemoryError/RecursionError/KeyboardInterrupt; attribute lookup is static; no monkey patching',
 ]
 
